@@ -19,7 +19,10 @@ RULE = ("one case = one store (recordings of real decorated operations whose cla
         "ids of one category; or lookup mode over a category list, in lookup order or as a RANDOM SAMPLE "
         "(random_sample=True under a seed of `random` named by the case) without a limit / with a limit smaller than, "
         "equal to and larger than the number of recordings of a category) + the set of "
-        "categories whose tuning cannot be created + a consumption script for the lazy result generators; "
+        "categories whose tuning cannot be created, each failing with an exception of its own shape (no arguments: bare "
+        "assert / raise <class> / next() of an empty generator / KeyError() / a custom class; one text; several "
+        "arguments; non-text arguments: int, None, tuple, bytes, dict, another exception; OSError family) "
+        "+ a consumption script for the lazy result generators; "
         "non-trivial = at least two prefix-related categories are involved; distinct = distinct canonical case")
 EXHAUSTIVE = {"quick": False, "thorough": False}
 ASSUMPTIONS = ["the content of a lookup is C10/C16's business: the model takes what the cassette's "
@@ -31,6 +34,9 @@ ASSUMPTIONS = ["the content of a lookup is C10/C16's business: the model takes w
                "dedicated comparison processes are modelled by C08/C13; here a few requests run on REAL worker "
                "processes and are expected to give what the in-process model gives (C08_modes_agree: no worker exits, "
                "hangs or late answers are scripted); a timing anomaly must show up three times in a row to count",
+               "a tuner fails with an Exception subclass (a BaseException - KeyboardInterrupt, SystemExit, "
+               "GeneratorExit - is not a tuning failure and is out of scope); whatever its class and arguments, the "
+               "category's result is that very object",
                "a tuning's functions behave per recording as scripted (ok / different / player, extractor, "
                "comparator raising / no output recorded / no such recording)"]
 TRUSTED = ["tagging tuner + journal in studio_driver.py; pass-through spy on the cassette's iter_recording_ids; "
@@ -38,6 +44,37 @@ TRUSTED = ["tagging tuner + journal in studio_driver.py; pass-through spy on the
            "harness-side re-statement of the category of an id (split('/')[0]; regex of the S3 id template)"]
 
 CATS = ["A", "AB", "A_B", "B"]
+# The ways a tuner fails for a category, and the exception each of them ends in: (class name, arguments) - an
+# independent re-statement of studio_driver.fail_tuning.  All Exception subclasses (BaseException is out of scope).
+FAIL_SHAPES = {
+    "msg": lambda c: ("TunerError", ("cannot tune %s" % c,)),                  # one text argument
+    "assert": lambda c: ("AssertionError", ()),                                 # bare assert
+    "notimpl": lambda c: ("NotImplementedError", ()),                           # raise <class>
+    "stopiter": lambda c: ("StopIteration", ()),                                # next() of an empty generator
+    "keyerror0": lambda c: ("KeyError", ()),
+    "bare": lambda c: ("BareTunerError", ()),                                   # custom class, super().__init__() bare
+    "lookup": lambda c: ("KeyError", (c,)),                                     # {}[category]
+    "two": lambda c: ("TunerError", ("cannot tune", c)),
+    "three": lambda c: ("ValueError", (c, 2, None)),
+    "oserror": lambda c: ("FileNotFoundError", (2, "No such tuning")),          # OSError(2, text, filename)
+    "int": lambda c: ("TunerError", (42,)),
+    "none": lambda c: ("TunerError", (None,)),
+    "tuple": lambda c: ("TunerError", ((c, 1),)),
+    "bytes": lambda c: ("TunerError", (b"cannot tune",)),
+    "dict": lambda c: ("TunerError", ({"category": c},)),
+    "emptystr": lambda c: ("TunerError", ("",)),
+    "unicode": lambda c: ("TunerError", (u"caf\u00e9 \u2713 %s" % c,)),
+    "braces": lambda c: ("TunerError", ("{} {0} {category} %s" % c,)),
+    "nested": lambda c: ("TunerError", (KeyError(c),)),
+}
+NO_ARGS = ["assert", "notimpl", "stopiter", "keyerror0", "bare"]
+SHAPE_NAMES = sorted(FAIL_SHAPES)
+
+
+def expected_error(case, c):
+    """canonical text of the exception the tuner of the failing category c ends in"""
+    name, args = FAIL_SHAPES[(case.get("fail_shape") or {}).get(c, "msg")](c)
+    return "%s%s" % (name, ascii(tuple(args)))
 BEHS = ["ok", "ok", "ok", "diff", "player_raises", "extractor_raises", "comparator_raises"]
 DAY0 = 20200227
 
@@ -254,7 +291,52 @@ def generate(rng, tier):
     # (b) the small region limit x category size x seed, always (also in the quick tier)
     for kind in ("mem", "file", "s3"):
         cases += random_sample_cases(rng, kind, tier)
+    # ---- the exception a failing tuner ends in.  Also drawn after everything else.
+    # (a) a share of the requests above with failing tuners: each failing category fails in a way of its own
+    for c in cases:
+        if c.get("fail") and rng.random() < 0.4:
+            c["fail_shape"] = {f: rng.choice(SHAPE_NAMES) for f in c["fail"]}
+    # (b) the small region exception shape x request mode x cassette, always (also in the quick tier)
+    for kind in ("mem", "file", "s3"):
+        cases += fail_shape_cases(rng, kind, tier)
     return cases
+
+
+def fail_shape_cases(rng, kind, tier):
+    """Every way a tuner can fail (exception without arguments / with one text / several / non-text arguments, raised
+    as a class, by an assert, by next(), by a lookup, a custom class) on an explicit and a lookup-driven request over
+    three or four categories of which one in the middle (and, second round, two with different shapes) fails: the
+    failing category's result is that exception, the other categories replay."""
+    out = []
+    recs = gen_store(rng, kind, 8)
+    for r in recs:
+        r.pop("incomplete", None)
+    present = sorted({r["cat"] for r in recs})
+    for shape in SHAPE_NAMES:
+        if tier == "quick" and kind != "mem" and shape not in NO_ARGS + ["msg", "two", "int"]:
+            continue
+        for mode in ("explicit", "lookup"):
+            victim = present[1 + rng.randrange(len(present) - 2)] if len(present) > 2 else present[-1]
+            fail, shapes = [victim], {victim: shape}
+            if rng.random() < 0.35:
+                other = rng.choice([c for c in present if c != victim])
+                fail, shapes = sorted([victim, other]), {victim: shape, other: rng.choice(SHAPE_NAMES)}
+            if mode == "explicit":
+                case = explicit_case(rng, kind, recs, fail=fail)
+                # every category at least once (so that the failing tuner is asked), a few more, in any order
+                ids = [rng.choice([i for i, r in enumerate(recs) if r["cat"] == c]) for c in present]
+                ids += [rng.randrange(len(recs)) for _ in range(3)]
+                rng.shuffle(ids)
+                case["ids"] = ids
+                case.pop("lp", None)
+            else:
+                case = lookup_case(rng, kind, recs, fail=fail)
+                case["categories"] = rng.sample(present, len(present)) + rng.choice([[], ["C"]])
+                case["lp"] = dict(limit=None, skip_incomplete=True)
+            case["fail_shape"] = shapes
+            case["config"] = rng.choice([None, "default", "keep"])
+            out.append(case)
+    return out
 
 
 def generate_main(rng, tier):
@@ -404,7 +486,7 @@ def g_cmp(c, store):
 
 def g_result(r, store):
     if "error" in r:
-        return "(CatError %s)" % gstr(r["error"])
+        return "(CatError %s)" % gstr(r["error"] if r.get("same", True) else "NOT-THE-RAISED-OBJECT:" + r["error"])
     if "junk" in r or "died" in r:
         return "(CatError %s)" % gstr("JUNK:" + str(r.get("junk", r.get("died"))))
     return "(CatRun %s)" % glist([g_cmp(c, store) for c in r["cmps"]])
@@ -434,7 +516,7 @@ def to_gallina(case, obs):
         ids = []
     cats = case.get("categories")
     return "Case %s %s %s %s %s %s %s %s %s" % (
-        gbool(case["cassette"] == "s3"), glist(behs), glist([gstr(c) for c in case.get("fail", [])]),
+        gbool(case["cassette"] == "s3"), glist(behs), glist([gpair(gstr(c), gstr(expected_error(case, c))) for c in case.get("fail", [])]),
         glist([gpair(gstr(c), glist([gstr(i) for i in l])) for c, l in lookups]),
         gbool("keep" in str(case.get("config")).split(":")),
         gopt(None if ids is None else glist([gstr(i) for i in ids])),
@@ -473,7 +555,8 @@ def check_play(case, obs, o, which):
             return fails                                   # nothing selected at all: TypeError is the code's answer
         if ids is not None and any(spec_category(kind, i) is None for i in ids):
             return fails                                   # an id the cassette cannot attribute to any category
-        bad("play-raises", "play() raised %s" % o["raised"])
+        bad("play-raises", "play() raised %s%s" % (o["raised"], "".join(
+            "; tuner of %s fails with %s" % (c, expected_error(case, c)) for c in case.get("fail", []))))
         return fails
     cats = o["cats"]
     results = dict(zip(cats, o["results"]))
@@ -502,8 +585,12 @@ def check_play(case, obs, o, which):
     for c in cats:
         r = results[c]
         if c in fail:
-            if r.get("error") != "TunerError(cannot tune %s)" % c:
-                bad("tuner-error-lost", "tuner of %s fails but its result is %s" % (c, str(r)[:200]))
+            if r.get("error") != expected_error(case, c):
+                bad("tuner-error-lost", "tuner of %s fails with %s but its result is %s" %
+                    (c, expected_error(case, c), str(r)[:200]))
+            elif not r.get("same"):
+                bad("tuner-error-lost", "tuner of %s fails; its result is an equal-looking %s but not the exception "
+                    "the tuner raised" % (c, r["error"]))
         elif "error" in r:
             bad("tuner-error-leaked", "tuner of %s works but its result is %s" % (c, r))
     # ---- every comparison: label of exactly this category, everything it carries is this category's tuning
@@ -647,6 +734,12 @@ def features(case):
          "config=%s" % case.get("config")}
     if str(case.get("config")).startswith("dedicated"):
         f.add("real-dedicated-processes")
+    for c in case.get("fail", []):
+        shape = (case.get("fail_shape") or {}).get(c, "msg")
+        name, args = FAIL_SHAPES[shape](c)
+        f.add("tuner-fails-with=" + shape)
+        f.add("tuner-error-args=%s" % ("none" if not args else "one-text" if len(args) == 1 and isinstance(args[0], str)
+                                       else "one-non-text" if len(args) == 1 else "several"))
     if case.get("close"):
         f.add("generator-closed-early")
     if "close" in case:
@@ -757,7 +850,12 @@ MANIFEST = dict(
          'selected id is played. Lookup-driven runs also ask for a random sample (random_sample=True, seeded `random`) '
          'with no limit / a limit below, at and above the size of a category, several seeds per combination on every '
          'cassette: whatever is drawn, the drawn recordings are distinct, of that category, as many as the limit allows, '
-         'and each is replayed exactly once.',
+         'and each is replayed exactly once. A failing tuner fails in 19 ways - exceptions without arguments (bare assert, '
+         'raise of a class, next() of an empty generator, KeyError(), a custom class), with one text, several, or non-text '
+         'arguments (int, None, tuple, bytes, dict, a nested exception, the OSError family) - every way on every cassette for '
+         'an explicit and a lookup-driven request: play() returns, the failing category maps to the very exception object '
+         'the tuner raised (class and arguments compared with the model, identity checked by the driver), the other '
+         'categories replay as without the failure.',
     note='Trusted: Coq kernel + vm_compute; hand-written model; correspondence harness (tagging tuner, lookup spy, fake '
          'bucket/clock). Lookup content is an oracle specified by C10; dedicated comparison processes are C08/C13.',
     technique='Coq proof (induction over id / category lists) + model/implementation correspondence by vm_compute',
